@@ -236,45 +236,57 @@ def run_fuzz(t, pid, tier, seed, repo, target):
 
 
 def run_tsan(t, pid, tier, seed, repo, target):
+    """C37 threaded stress (same engine common/selsim.rs and same offline oracle as the driver's monitor)
+    built as the standalone crate /verif/tsan with -Zsanitizer=thread -Zbuild-std, so ThreadSanitizer
+    watches the real wrapper, channel, source wrappers and Kalman code."""
     tdir = os.environ.get("VERIF_TSAN_TARGET", os.path.join(ROOT, "target-tsan"))
-    env = _env({"CARGO_TARGET_DIR": tdir, "RUSTFLAGS": "--cfg pendulum_project_ntpd_rs_verif --cap-lints warn -A missing_docs -A unused -Zsanitizer=thread",
-                "TSAN_OPTIONS": "halt_on_error=0 exitcode=66"})
-    wdir = os.path.join(ROOT, "work", pid + "-tsan")
-    shutil.rmtree(wdir, ignore_errors=True)
-    os.makedirs(wdir, exist_ok=True)
+    crate = os.path.join(ROOT, "tsan")
+    env = _env({"CARGO_TARGET_DIR": tdir,
+                "RUSTFLAGS": "-Zsanitizer=thread --cfg pendulum_project_ntpd_rs_verif --cap-lints warn -A missing_docs -A unused -A unreachable_pub"})
     t0 = time.time()
-    b = subprocess.run(["cargo", "+nightly", "build", "--offline", "-Zbuild-std", "--target", "x86_64-unknown-linux-gnu", "--profile", "strict"] + _paths_cfg(repo),
-                       cwd=DRIVER, env=env, stdout=subprocess.PIPE, stderr=subprocess.STDOUT, text=True, timeout=3600)
+    cfg = [] if repo == "/repo" else ["--config", 'paths=["%s/ntp-proto"]' % repo]
+    b = subprocess.run(["cargo", "+nightly", "build", "--offline", "-Zbuild-std", "--target", "x86_64-unknown-linux-gnu"] + cfg,
+                       cwd=crate, env=env, stdout=subprocess.PIPE, stderr=subprocess.STDOUT, text=True, timeout=3600)
     if b.returncode != 0:
         return {"status": "skipped", "reason": "tsan build failed: " + b.stdout[-400:]}
-    binp = os.path.join(tdir, "x86_64-unknown-linux-gnu", "strict", "verif-driver")
+    binp = os.path.join(tdir, "x86_64-unknown-linux-gnu", "debug", "verif-tsan-c37")
     runs = int(t.get("runs", 5))
-    cases = int(t.get("cases_quick" if tier == "quick" else "cases_thorough", 50))
+    histories = int(t.get("histories_quick" if tier == "quick" else "histories_thorough", 200))
     viol = {}
     reports = 0
-    outs = []
+    total_hist = 0
+    estimates = 0
+    harness = 0
+    e2 = dict(env)
+    e2["TSAN_OPTIONS"] = "halt_on_error=0 second_deadlock_stack=1 exitcode=66"
     for i in range(runs):
-        out = os.path.join(wdir, "tsan-%d.json" % i)
-        outs.append(out)
         try:
-            r = subprocess.run([binp, "run", pid, "--tier", "quick", "--seed", str(seed + i), "--shard", str(i), "--nshards", str(runs),
-                                "--max-cases", str(cases), "--out", out], env=env, stdout=subprocess.PIPE, stderr=subprocess.PIPE, text=True,
+            r = subprocess.run([binp, str(histories), str(seed * 1000 + i)], env=e2, stdout=subprocess.PIPE, stderr=subprocess.PIPE, text=True,
                                timeout=int(t.get("timeout_s", 900)))
         except subprocess.TimeoutExpired:
+            harness += 1
             continue
-        for blk in re.findall(r"WARNING: ThreadSanitizer: ([^\n]+)\n(.*?)\n\n", r.stderr, flags=re.S):
+        err = r.stderr
+        m = re.search(r"histories=(\d+) estimates_with_used=(\d+) oracle_findings=(\d+) harness_errors=(\d+)", err)
+        if m:
+            total_hist += int(m.group(1))
+            estimates += int(m.group(2))
+            harness += int(m.group(4))
+        for om in re.finditer(r"ORACLE (C37/[^:]+): ([^\n]*)", err):
+            sig = "tsan-run/" + om.group(1)
+            viol.setdefault(sig, {"sig": sig, "what": "C37 oracle under the TSan build: " + om.group(2)[:300], "detail": {}, "idx": 0, "profile": "strict"})
+        for blk in re.findall(r"WARNING: ThreadSanitizer: ([^\n]+)\n(.*?)\n\n", err, flags=re.S):
             reports += 1
             frames = re.findall(r"#\d+ ([^\s]+) ", blk[1])
-            inrepo = [f for f in frames if "ntp_proto" in f or "ntpd" in f or "verif_driver" in f]
-            sig = "tsan/%s@%s" % (blk[0].split("(")[0].strip(), (inrepo[0] if inrepo else (frames[0] if frames else "?"))[:80])
+            inrepo = [f for f in frames if "ntp_proto" in f]
+            site = (inrepo[0] if inrepo else (frames[0] if frames else "?"))[:100]
+            sig = "tsan/%s@%s" % (blk[0].split("(")[0].strip(), re.sub(r"::h[0-9a-f]{16}", "", site))
             viol.setdefault(sig, {"sig": sig, "what": "ThreadSanitizer: " + blk[0], "detail": {"report": blk[1][:1500]}, "idx": 0, "profile": "strict"})
-    ev, v2, counters, herr = _merge_reports(outs)
-    for k, v in v2.items():
-        viol.setdefault(k, v)
-    status = "violation" if viol else ("ok" if ev > 0 else "inconclusive")
-    return {"status": status, "engine": "ThreadSanitizer (-Zsanitizer=thread -Zbuild-std) build of the driver", "runs": runs,
-            "cases_executed": ev, "tsan_reports": reports, "events": counters, "wall_s": round(time.time() - t0, 1),
-            "violations": list(viol.values()), "reason": "no case completed under TSan" if status == "inconclusive" else ""}
+    status = "violation" if viol else ("ok" if total_hist > 0 else "inconclusive")
+    return {"status": status, "engine": "ThreadSanitizer build (-Zsanitizer=thread -Zbuild-std) of the C37 stress engine", "runs": runs,
+            "histories_executed": total_hist, "estimates_with_used_sources": estimates, "tsan_reports": reports, "harness_errors": harness,
+            "wall_s": round(time.time() - t0, 1), "violations": list(viol.values()),
+            "reason": "no history completed under TSan" if status == "inconclusive" else ""}
 
 
 def run(t, pid, tier, seed, repo, target):
